@@ -149,7 +149,7 @@ impl Property for C03 {
     }
 
     fn required_classes(_tier: Tier) -> Vec<&'static str> {
-        vec!["sorted", "multi-key", "shared-inline-prefix", "key-is-prefix-of-another", "sub-window", "sort-moved-entries", "search-exhaustive", "probe-absent", "probe-present"]
+        vec!["sorted", "multi-key", "shared-inline-prefix", "key-is-prefix-of-another", "sub-window", "sort-moved-entries", "search-exhaustive", "probe-absent", "probe-present", "probe-unsorted-column"]
     }
 
     fn run(case: &C03Case, ctx: &Ctx) -> CaseResult {
@@ -317,6 +317,35 @@ impl Property for C03 {
                             match library_find(&oi, &key) {
                                 Ok(got) => ensure!(got == expected, "find-absent-library-compare", "index {wname} window=({off},{cnt}): lookup of {:?} through PropertyCompare = {got:?}, model says {expected:?}", key),
                                 Err(e) => fail!("find-error", "PropertyCompare lookup: {e}"),
+                            }
+                        }
+                        // 4. lookup by ONE property that the store is not (primarily) sorted on, through the
+                        // library's comparator: it announces an unordered column, so the search has to be
+                        // linear and returns the first entry of the window carrying the value
+                        if let Some(prop) = sm
+                            .schema
+                            .common
+                            .iter()
+                            .enumerate()
+                            .find(|(k, p)| sm.schema.sort.first() != Some(k) && matches!(p.kind, PKind::UInt | PKind::SInt | PKind::Array { .. }))
+                            .map(|(_, p)| p)
+                        {
+                            let col: Vec<DVal> = (0..*cnt).map(|i| sm.expected_at(off + i).1[prop.name].clone()).collect();
+                            for _ in 0..6.min(*cnt) {
+                                let i = (next() % *cnt as u64) as usize;
+                                let expected = col.iter().position(|v| cmp_dval(v, &col[i]) == Ordering::Equal);
+                                match library_find(&oi, &[(prop.name, col[i].clone())]) {
+                                    Ok(got) => ensure!(
+                                        got == expected,
+                                        "find-by-unsorted-column-library-compare",
+                                        "index {wname} window=({off},{cnt}): lookup of {}={:?} (value of entry {i}; the store is not sorted on it) through PropertyCompare = {got:?}, first entry carrying it is {expected:?}",
+                                        prop.name,
+                                        col[i]
+                                    ),
+                                    Err(e) => fail!("find-error", "PropertyCompare lookup: {e}"),
+                                }
+                                info.class("probe-unsorted-column");
+                                evals += 1;
                             }
                         }
                         // keys of entries outside the window must not be found in it
